@@ -1,4 +1,6 @@
 import MwVerif.Lemmas.Templ.Eval
+import MwVerif.Lemmas.Expr.Rpn
+import MwVerif.Gen.ExprOps
 /-!
 # C04 — template expansion computes what the template language says (evaluator part)
 
@@ -352,3 +354,60 @@ theorem c04_switch_first_match (cfg : Cfg) (f c : Nat) (env : Env) (subject : St
   simp [nodeFalsy, hv, strip_single]
 
 end MwVerif.Templ
+
+/-! ## `#expr`: evaluation order -/
+namespace MwVerif.Expr
+
+/-- C04 `#expr`: for every expression tree whose parentheses are where the grammar needs them
+(there may be more), over any operator table, the shunting-yard loop of `expr.py` outputs — i.e.
+the real code evaluates — the operands and operators in the tree's post-order: precedence and
+left-to-right association are respected whatever the operators compute. -/
+theorem c04_rpn_correct (t : Tbl) (e : Ast) (hok : e.ok t = true) : rpn t e.toks = .ok e.postorder :=
+  rpn_correct t e hok
+
+/-- … in particular for the table of the code (regenerated from `expr.precedence`). -/
+theorem c04_rpn_correct_mwlib (e : Ast) (hok : e.ok Gen.ExprOps.table = true) :
+    rpn Gen.ExprOps.table e.toks = .ok e.postorder := rpn_correct _ e hok
+
+/-- the documented operator table of MediaWiki's `#expr` (Help:Calculation / ExprParser):
+(name, precedence level, prefix operator?).  `e` (scientific notation) is not part of the model. -/
+def documented : List (String × Nat × Bool) := [
+  ("u-", 10, true), ("u+", 10, true),
+  ("abs", 9, true), ("floor", 9, true), ("ceil", 9, true), ("trunc", 9, true), ("exp", 9, true),
+  ("ln", 9, true), ("sin", 9, true), ("cos", 9, true), ("tan", 9, true), ("asin", 9, true),
+  ("acos", 9, true), ("atan", 9, true), ("not", 9, true),
+  ("^", 8, false),
+  ("*", 7, false), ("/", 7, false), ("div", 7, false), ("mod", 7, false),
+  ("+", 6, false), ("-", 6, false),
+  ("round", 5, false),
+  ("=", 4, false), ("!=", 4, false), ("<>", 4, false), ("<", 4, false), (">", 4, false),
+  ("<=", 4, false), (">=", 4, false),
+  ("and", 3, false), ("or", 2, false)]
+
+/-- the code's table knows every documented operator with the documented arity, and a binary
+operator `b` arriving while `a` is on the stack pops it exactly when the documented levels say so
+(`level b ≤ level a`): the code's numbers differ from MediaWiki's, the order they induce does not. -/
+def tableAgrees (t : Tbl) : Bool :=
+  documented.all fun a =>
+    (t.prec a.1).isSome && t.unary a.1 == a.2.2 &&
+      documented.all fun b =>
+        b.2.2 || (decide (precOf t b.1 ≤ precOf t a.1) == decide (b.2.1 ≤ a.2.1))
+
+theorem c04_table_is_documented : tableAgrees Gen.ExprOps.table = true := by decide +kernel
+
+/-- and it has no operator beyond the documented ones and the scientific-notation `e`. -/
+theorem c04_table_has_no_extras :
+    Gen.ExprOps.ops.all (fun r => documented.any (·.1 = r.1) || r.1 = "e" || r.1 = "E") = true := by
+  decide +kernel
+
+/-- non-vacuity: `1 - 2 - 3 * 4 ^ 5 ^ 6`, `-(1 + 2) * abs 3` and a redundantly parenthesised
+variant are well-parenthesised. -/
+example : (Ast.bin "-" (.bin "-" (.num 1) (.num 2))
+    (.bin "*" (.num 3) (.bin "^" (.bin "^" (.num 4) (.num 5)) (.num 6)))).ok Gen.ExprOps.table = true := by
+  decide +kernel
+example : (Ast.bin "*" (.un "-" (.paren (.bin "+" (.num 1) (.num 2)))) (.un "abs" (.num 3))).ok
+    Gen.ExprOps.table = true := by decide +kernel
+example : (Ast.bin "+" (.num 1) (.bin "+" (.num 2) (.num 3))).ok Gen.ExprOps.table = false := by
+  decide +kernel
+
+end MwVerif.Expr
